@@ -24,6 +24,8 @@ ASSUMPTIONS = ["the realistic slave (lib/native.py) only shows behaviour the rea
 
 NONTRIVIAL = {"write_WRAP", "write_FIXED", "read_WRAP", "read_FIXED", "read_just_after_b_same_address", "partial_strobe_rmw", "b_stalled_2_pending", "r_stalled_2_pending"}
 
+REQUIRED_CLASSES = sorted(NONTRIVIAL) + ["read_concurrent_with_write", "partial_strobe_plain", "long_burst"]
+
 DEPTHS = [(16, 16), (2, 2), (4, 8), (8, 1), (3, 5), (16, 2), (2, 16), (7, 3), (5, 15), (15, 7), (4, 4)]
 BASES = [0, 0x40000000, 0x10000]
 
@@ -149,12 +151,14 @@ def run_shard(sh):
     col = Collector(ID)
     violation = None
     for di, cfg in enumerate(sh["devs"]):
-        state = dict(first=True, target=None)
+        state = dict(n=0, diffs=(1 if sh["tier"] == "quick" else 3) if di == 0 else 0, target=None)
 
         def t(stim, cfg=cfg, state=state, di=di):
-            if state["first"] and di == 0:
+            # differential self-test on the first case(s) of the shard that have some substance (Hypothesis starts with the empty-ish case)
+            state["n"] += 1
+            if state["diffs"] and (len(stim["ops"]) >= 3 or state["n"] >= 12):
+                state["diffs"] -= 1
                 col.diff_cycles += ax.diff_selftest(cfg, stim, 300 if sh["tier"] == "quick" else 600)
-            state["first"] = False
             run, fs, classes = evaluate(cfg, stim)
             nt = classes & NONTRIVIAL
             col.case(dict(cfg=cfg, stim=stim), classes=sorted(classes) + [devtag(cfg)], nontrivial=bool(nt), sample=sample_of(cfg, stim, classes, run))
